@@ -425,9 +425,34 @@ fn same_pipeline(m: &Model, ctx: &mut Ctx) {
     // CompileResult::fmt only replaces `generated` by its formatted version (or keeps it)
     if let Ok(f) = m.find_fn(Some("CompileResult"), "fmt", None) {
         ctx.oblige("C20.same", "fmt-keeps-text-on-format-failure", true);
-        let b = tok(&f.block);
-        if !b.contains("self.generated=B::format_bindings(&self.generated).unwrap_or(self.generated)") {
-            ctx.violate("C20.same", "fmt-keeps-text-on-format-failure", &f.file, f.line, "CompileResult::fmt must be `generated = format_bindings(&generated).unwrap_or(generated)`");
+        // evaluated with a formatter that succeeds and one that fails: formatted text / the text as it was; warnings untouched
+        for fails in [false, true] {
+            let hook = move |_: &Evaluator, name: &str, a: &[Val]| -> Option<Result<Val, String>> {
+                if name.ends_with("::format_bindings") {
+                    let ok = matches!(a.first(), Some(Val::Str(t)) if t == "TEXT");
+                    return Some(Ok(if fails || !ok { Val::Ctor("Err".into(), vec![Val::Sym("format error".into())], BTreeMap::new()) } else { Val::Ctor("Ok".into(), vec![Val::Str("FORMATTED TEXT".into())], BTreeMap::new()) }));
+                }
+                None
+            };
+            let consts = const_resolver(m);
+            let ev = Evaluator { consts: &consts, call_hook: &hook, inline: None };
+            let mut me = BTreeMap::new();
+            me.insert("generated".to_string(), Val::Str("TEXT".into()));
+            me.insert("warnings".to_string(), Val::List(vec![Val::Sym("W".into())]));
+            let mut env = Env::new();
+            env.insert("self".into(), Val::Ctor("CompileResult".into(), vec![], me));
+            match ev.eval_fn_body(&f.block, &mut env) {
+                Ok(Val::Ctor(n, _, fields)) if n == "CompileResult" => {
+                    let text = fields.get("generated").map(|v| v.show()).unwrap_or_default();
+                    let warns = fields.get("warnings").map(|v| v.show()).unwrap_or_default();
+                    let want = if fails { "\"TEXT\"" } else { "\"FORMATTED TEXT\"" };
+                    if text != want || warns != "[W]" {
+                        ctx.violate("C20.same", "fmt-keeps-text-on-format-failure", &f.file, f.line, &format!("CompileResult::fmt with a formatter that {} returns generated = {} and warnings = {}; expected {} and [W]: formatting may only replace the text by its formatted version, and keeps it when the formatter fails", if fails { "fails" } else { "succeeds" }, text, warns, want));
+                    }
+                }
+                Ok(o) => ctx.fail_closed("C20.same", &format!("[CompileResult::fmt]: result {}", o.show())),
+                Err(e) => ctx.fail_closed("C20.same", &format!("[CompileResult::fmt]: {}", e)),
+            }
         }
     }
 }
@@ -651,9 +676,66 @@ fn asn1_macro(m: &Model, ctx: &mut Ctx) {
         ctx.violate("C20.macro", "pipeline", &f.file, f.line, &format!("asn1! must expand to parse(compile_to_string(literal).unwrap().generated); found chain {:?}", ch));
     }
     ctx.oblige("C20.macro", "wrapping", true);
-    let b = tok(&f.block);
-    if !(b.contains("v if v.contains(\"BEGIN\")=>v") && b.contains("String::from(DUMMY_HEADER)+&v+DUMMY_FOOTER")) {
-        ctx.violate("C20.macro", "wrapping", &f.file, f.line, "asn1! must pass a full module through unchanged and wrap a bare snippet in DUMMY_HEADER .. DUMMY_FOOTER only");
+    // the text handed to the compiler: the statements ahead of the pipeline are evaluated on a full module and on a snippet,
+    // and the argument of add_asn_literal is read back
+    {
+        let arg = model::method_calls_in(&f.block).into_iter().find(|mc| mc.method == "add_asn_literal").and_then(|mc| mc.args.first().map(|a| tok(a)));
+        match arg {
+            None => ctx.fail_closed("C20.macro", "asn1!: no add_asn_literal call"),
+            Some(var) => {
+                let consts = const_resolver(m);
+                let hdr = m.consts.iter().find(|c| c.name == "DUMMY_HEADER").and_then(|c| lit_of(&c.expr));
+                let ftr = m.consts.iter().find(|c| c.name == "DUMMY_FOOTER").and_then(|c| lit_of(&c.expr));
+                for (label, text) in [("module", "M DEFINITIONS ::= BEGIN A ::= INTEGER END"), ("snippet", "A ::= INTEGER")] {
+                    let t = text.to_string();
+                    let hook = move |_: &Evaluator, name: &str, _: &[Val]| -> Option<Result<Val, String>> {
+                        match name {
+                            ".value" => Some(Ok(Val::Str(t.clone()))),
+                            // whatever the argument struct is called and however its literal is reached: `.value()` yields the text
+                            "parse_macro_input!" => {
+                                let mut cfg = BTreeMap::new();
+                                for fld in ["asn", "input", "literal", "source"] {
+                                    cfg.insert(fld.to_string(), Val::ctor("LitStr"));
+                                }
+                                Some(Ok(Val::Ctor("MacroInput".into(), vec![], cfg)))
+                            }
+                            _ => None,
+                        }
+                    };
+                    let ev = Evaluator { consts: &consts, call_hook: &hook, inline: None };
+                    let mut env = Env::new();
+                    if let (Some(h), Some(f2)) = (&hdr, &ftr) {
+                        env.insert("DUMMY_HEADER".into(), h.clone());
+                        env.insert("DUMMY_FOOTER".into(), f2.clone());
+                    }
+                    let mut err = None;
+                    for st in &f.block.stmts {
+                        if let syn::Stmt::Local(l) = st {
+                            let Some(init) = &l.init else { continue };
+                            match ev.eval(&init.expr, &mut env) {
+                                Ok(v) => { env.insert(tok(&l.pat).trim_start_matches("mut ").to_string(), v); }
+                                Err(e) => { err = Some(e); break }
+                            }
+                        }
+                    }
+                    if let Some(e) = err {
+                        ctx.fail_closed("C20.macro", &format!("[asn1! {}]: {}", label, e));
+                        continue;
+                    }
+                    match env.get(&var) {
+                        Some(Val::Str(got)) => {
+                            let want = if label == "module" { text.to_string() } else {
+                                match (&hdr, &ftr) { (Some(Val::Str(h)), Some(Val::Str(f2))) => format!("{}{}{}", h, text, f2), _ => String::new() }
+                            };
+                            if *got != want {
+                                ctx.violate("C20.macro", "wrapping", &f.file, f.line, &format!("asn1! on a {} hands `{}` to the compiler: a full module passes through unchanged, a bare snippet is wrapped in DUMMY_HEADER .. DUMMY_FOOTER and nothing else", label, got.chars().take(100).collect::<String>()));
+                            }
+                        }
+                        o => ctx.fail_closed("C20.macro", &format!("[asn1! {}]: the argument of add_asn_literal evaluates to {:?}", label, o.map(|v| v.show()))),
+                    }
+                }
+            }
+        }
     }
     let hdr = m.consts.iter().find(|c| c.name == "DUMMY_HEADER").and_then(|c| lit_of(&c.expr));
     ctx.oblige("C20.macro", "dummy-header", true);
